@@ -407,7 +407,7 @@ func c05IDs(tier string, seed int64, idx int, c c05Case, res *core.Result) {
 						errs[i] = err
 						return
 					}
-					pl := []byte("p-" + tag)
+					pl := c05Big("p-"+tag, i)
 					if err := s.Send(pl); err != nil {
 						errs[i] = err
 						return
@@ -426,11 +426,12 @@ func c05IDs(tier string, seed int64, idx int, c c05Case, res *core.Result) {
 					}
 					return
 				}
-				got, err := svc.Invoke(context.Background(), cc, tag, []byte("p-"+tag))
+				want := c05Big("p-"+tag, i)
+				got, err := svc.Invoke(context.Background(), cc, tag, want)
 				if err != nil {
 					errs[i] = err
-				} else if string(got) != "p-"+tag {
-					errs[i] = fmt.Errorf("unary %s: got %q", tag, got)
+				} else if string(got) != string(want) {
+					errs[i] = fmt.Errorf("unary %s: got %d bytes starting %q", tag, len(got), trunc(string(got)))
 				}
 			}(i)
 		}
@@ -546,4 +547,14 @@ func init() {
 		},
 		Assumptions: []string{"exhaustive = all interleavings of the listed script-length configurations; id histories are sampled schedules"},
 	})
+}
+
+// c05Big: every other call carries a payload of 2-5 KiB (above the codec's buffer-pooling
+// threshold) that is its tag repeated, so bytes of another call are recognisable.
+func c05Big(tag string, i int) []byte {
+	if i%2 == 0 {
+		return []byte(tag)
+	}
+	n := 2048 + (i%4)*1024
+	return []byte(strings.Repeat(tag+"|", n/(len(tag)+1)+1))[:n]
 }
